@@ -211,16 +211,17 @@ var ctxChars = vaxis.Characters
 // ---------- plain scanner ----------
 
 type plainCase struct {
-	s       string
-	cl      []string // global clustering
-	a       alphabet
-	cells   []int
-	offs    []int       // byte offset of each cluster, plus len(s)
-	cellAt  map[int]int // byte offset -> cell index
-	otable  []string
-	nstates int
-	ok      bool // A-concat screening passed
-	why     string
+	s         string
+	cl        []string // global clustering
+	a         alphabet
+	cells     []int
+	offs      []int       // byte offset of each cluster, plus len(s)
+	cellAt    map[int]int // byte offset -> cell index
+	otable    []string
+	nstates   int
+	ok        bool // A-concat screening passed
+	staleTerm bool // some stale query starts with a line terminator (the F116 shape is reachable in the closure)
+	why       string
 }
 
 type oKey struct{ pos, st int }
@@ -260,6 +261,11 @@ func buildPlain(s string, whi int) *plainCase {
 	}
 	seen := map[oKey]bool{}
 	work := []oKey{{0, -1}}
+	// OracleTermW (hypothesis of hard_break_end_to_end): a query is "fresh" when its state is the one
+	// uniseg returned for that position (the initial query, and every query reached by succession);
+	// the queries text.go makes with the old state after splitting a long word are "stale" (F116)
+	fresh := map[oKey]bool{{0, -1}: true}
+	segInfo := map[oKey][3]int{}
 	b := []byte(s)
 	budget := 40 << 20 // bytes scanned; beyond it the table is partial (a miss shows up as a model hang)
 	for len(work) > 0 && pc.ok && budget > 0 {
@@ -280,6 +286,8 @@ func buildPlain(s string, whi int) *plainCase {
 			pc.why = "segment-not-on-cluster-boundary"
 			break
 		}
+		segInfo[k] = [3]int{ci, ce, b2i(br)}
+		fresh[oKey{end, st2}] = true
 		brI := 0
 		if br {
 			brI = 1
@@ -330,9 +338,34 @@ func buildPlain(s string, whi int) *plainCase {
 			}
 		}
 	}
+	// fresh queries: a terminator only as the last cluster of the segment, and then must-break;
+	// stale queries: the same except that the first cluster is exempt
+	for k, si := range segInfo {
+		ci, ce, br := si[0], si[1], si[2] == 1
+		for x := ci; x < ce && pc.ok; x++ {
+			if !uniseg.HasTrailingLineBreakInString(pc.cl[x]) {
+				continue
+			}
+			if x == ci && !fresh[k] {
+				pc.staleTerm = true
+				continue
+			}
+			if x != ce-1 || !br {
+				pc.ok = false
+				pc.why = "oracle-term"
+			}
+		}
+	}
 	pc.nstates = len(stIds)
 	sort.Strings(pc.otable)
 	return pc
+}
+
+func b2i(b bool) int {
+	if b {
+		return 1
+	}
+	return 0
 }
 
 func (pc *plainCase) op(kind string, wlo, whi int) string {
@@ -601,6 +634,9 @@ func (st *state) emitText(s string, wlo, whi int, split int, styles []int) {
 		}
 		r.Emit(pc.op("P", wlo, whi), strings.Join(res, "|"))
 		r.Count("plain")
+		if pc.staleTerm {
+			r.Count("plain:stale-query-starts-with-terminator")
+		}
 	}
 	// rich: the same text cut into styled segments
 	var parts []string
